@@ -3,7 +3,7 @@
    proofs in Broker/InvProofs*.v and Props/C11_lemmas.v. *)
 From stdpp Require Import gmap list.
 From Aldrin Require Import gen.BrokerConsts Broker.Model Broker.Run Broker.ChannelProofs Broker.Inv
-  Broker.InvProofsStep Broker.InvProofsTerm Props.C11_lemmas Props.C11_fuel.
+  Broker.InvProofsStep Broker.InvProofsTerm Props.C11_lemmas.
 Local Open Scope N_scope.
 
 Theorem C11_inv_init : Inv init.
@@ -115,6 +115,16 @@ Theorem C11_shutdown_broker_closes_all : forall s f b s' o,
 Proof. exact shutdown_broker_closes_all. Qed.
 Print Assumptions C11_shutdown_broker_closes_all.
 
+(* objects of other connections: whatever [c] sends, an object owned by another connection whose
+   receiver is alive is still there, unchanged, after the step *)
+Theorem C11_objects_of_others_kept : forall s i c x u o cso s' out,
+  reachable s -> legal s i -> i_ev i = Message c x ->
+  objs s !! u = Some o -> o_owner o <> c -> conns s !! o_owner o = Some cso -> cs_alive cso = true ->
+  step s (Message c x) (i_fresh i) (i_bserial i) = Done (s', out) ->
+  objs s' !! u = Some o.
+Proof. exact step_keeps_others. Qed.
+Print Assumptions C11_objects_of_others_kept.
+
 (* the broker does not hang: the work loop terminates from every machine state the handlers can
    produce; [step_fuel F] is [step] with [F m] instead of [fuel_for (ms m)] as the loop's fuel.
    For every legal input in a reachable state there is an amount of fuel with which the step is
@@ -144,10 +154,4 @@ Theorem C11_done_or_fuel : forall s i,
 Proof. exact reach_done_or_fuel. Qed.
 Print Assumptions C11_done_or_fuel.
 
-(* MODEL ARTIFACT (not a defect of /repo, whose work loop has no fuel): the model's fuel bound
-   [fuel_for] does not count event subscriptions, so the fuel site 0 IS reachable by a legal
-   history (270 subscriptions of one connection, then its disconnect).  This is why C11_no_panic
-   is stated for site <> 0; it refutes "fuel_for is always enough" for the model as it stands. *)
-Theorem C11_fuel_for_insufficient : exists h, legal_run init h /\ run init h = Panic 0.
-Proof. exact fuel_for_insufficient. Qed.
-Print Assumptions C11_fuel_for_insufficient.
+
